@@ -283,6 +283,26 @@ def _s(s):
     s.out, s.out_name = v2, "v2"
 
 
+@scenario("param.view.same_element", "torchtree.core.parameter.ViewParameter")
+def _s(s):
+    """two views that address the SAME element of one parameter with different spellings of the index (3 and -1, 0 and -4), each with a
+    consumer of its own: an assignment through one of them is an update of the other"""
+    from torchtree.core.parameter import ViewParameter
+    from torchtree.distributions.distributions import Distribution
+    p = s.P("p", [0.5, 1.5, 2.5, 3.5], "real")
+    vp = s.D("vp", ViewParameter("vp", p, 3), "real")
+    vn = s.D("vn", ViewParameter("vn", p, -1), "real")
+    v0 = s.D("v0", ViewParameter("v0", p, 0), "real")
+    vm = s.D("vm", ViewParameter("vm", p, -4), "real")
+    loc = s.P("loc", [0.0], "fixed")
+    sc = s.P("sc", [1.5], "fixed")
+    dn = s.M("dn", Distribution("dn", torch.distributions.Normal, vn, OrderedDict([("loc", loc), ("scale", sc)])))
+    dm = s.M("dm", Distribution("dm", torch.distributions.Normal, vm, OrderedDict([("loc", loc), ("scale", sc)])))
+    s.E("dn.__call__", lambda: dn())
+    s.E("dm.__call__", lambda: dm())
+    s.out, s.out_name = vp, "vp"
+
+
 @scenario("param.view.of_cat", "torchtree.core.parameter.ViewParameter")
 def _s(s):
     """a view of a concatenation: the components are the state, the view is one more way of writing to them"""
@@ -2351,10 +2371,32 @@ def check_optimizer(args):
 # ================================================================================================
 # end-to-end cross-validation (bounded, tag B)
 # ================================================================================================
+def _systematic_histories(graph, seed):
+    """every assignable object once between two evaluations of EVERYTHING (all caches warm before the update), and every ordered pair of
+    assignments between two such evaluations: the histories a random walk of a few dozen steps is unlikely to contain"""
+    rng = random.Random("%s/sys/%d" % (graph, seed))
+    s = build(graph)
+    assignable = [n for n in list(s.params) + list(s.derived) if s.domains.get(n) not in (None, "fixed")]
+    out = []
+    for n in assignable:
+        v = _perturb(s.target(n).tensor, s.domains[n], rng).tolist()
+        out.append([{"op": "eval", "what": "*"}, {"op": "assign", "target": n, "value": v}, {"op": "eval", "what": "*"}])
+    for a in assignable[:6]:
+        for b in assignable[:6]:
+            if a != b:
+                va = _perturb(s.target(a).tensor, s.domains[a], rng).tolist()
+                vb = _perturb(s.target(b).tensor, s.domains[b], rng).tolist()
+                out.append([{"op": "eval", "what": "*"}, {"op": "assign", "target": a, "value": va}, {"op": "eval", "what": "*"},
+                            {"op": "assign", "target": b, "value": vb}, {"op": "eval", "what": "*"}])
+    return out
+
+
 def check_dyn(graph, seed, n_hist, length):
     total_ops = 0
-    for k in range(n_hist):
-        ops = gen_history(graph, seed * 1000 + k, length)
+    hists = _systematic_histories(graph, seed) + [None] * n_hist
+    for k, ops in enumerate(hists):
+        if ops is None:
+            ops = gen_history(graph, seed * 1000 + (k - (len(hists) - n_hist)), length)
         total_ops += len(ops)
         found, _ = run_history(graph, ops)
         if found:
@@ -2365,9 +2407,10 @@ def check_dyn(graph, seed, n_hist, length):
                           witness={"graph": graph, "ops": small, "observed": (found2 or found)[:3], "history_seed": seed * 1000 + k},
                           replay={"kind": "custom", "contract": "C11", "func": "replay_history", "args": {"kind": "history", "graph": graph, "ops": small}},
                           confirmed=bool(found2))
-    return {"backend": "concrete", "cases": n_hist, "operations": total_ops,
-            "statement": "%d seeded histories (%d public operations) on the real graph %s: every evaluation equals a freshly built copy holding the same parameter values (atol %g)"
-                         % (n_hist, total_ops, graph, ATOL)}
+    return {"backend": "concrete", "cases": len(hists), "operations": total_ops,
+            "statement": "%d systematic (each assignable object / ordered pair between full evaluations) + %d seeded histories (%d public operations) on the real graph %s: "
+                         "every evaluation equals a freshly built copy holding the same parameter values (atol %g)"
+                         % (len(hists) - n_hist, n_hist, total_ops, graph, ATOL)}
 
 
 _CLASS_OBS = {}   # "module.Class" -> [(obligation name, fn)]   filled by obligations() before the pool forks
